@@ -81,6 +81,19 @@ class Term:
         return f"{self.name}({', '.join(f'{k}={v!r}' for k, v in self.fields.items())})"
 
 
+class Obj:
+    """Representative object: fields plus methods (python callables receiving evaluated arguments).
+    Compared by identity, like an ordinary instance without __eq__."""
+
+    def __init__(self, label="obj", fields=None, methods=None):
+        self.label = label
+        self.fields = dict(fields or {})
+        self.methods = dict(methods or {})
+
+    def __repr__(self):
+        return f"<{self.label}>"
+
+
 class Closure:
     def __init__(self, params, body, env, interp, is_lambda):
         self.params, self.body, self.env, self.interp, self.is_lambda = params, body, env, interp, is_lambda
@@ -166,8 +179,9 @@ class Interp:
     """resolver(dotted name, module) -> (FunctionDef, Module) | None resolves calls into the analysed package.
     identity: names of calls treated as identity on their first argument; sinks: names of calls recorded, not evaluated."""
 
-    def __init__(self, resolver=None, identity=(), sinks=(), max_steps: int = 200000, on_store=None, ctor_prefixes=()):
+    def __init__(self, resolver=None, identity=(), sinks=(), max_steps: int = 200000, on_store=None, ctor_prefixes=(), externs=None):
         self.ctor_prefixes = tuple(ctor_prefixes)
+        self.externs = dict(externs or {})
         self.resolver = resolver
         self.identity = set(identity)
         self.sinks = set(sinks)
@@ -210,6 +224,12 @@ class Interp:
                 return Token(f"{base}.{e.attr}")
             if isinstance(base, Term):
                 return base.get(e.attr)
+            if isinstance(base, Obj):
+                if e.attr in base.fields:
+                    return base.fields[e.attr]
+                if e.attr in base.methods:
+                    return base.methods[e.attr]
+                raise Raises("AttributeError", f"{base!r}.{e.attr}")
             if isinstance(base, enum.Enum) and e.attr in ("name", "value"):
                 return getattr(base, e.attr)
             if e.attr in ("real", "imag", "numerator", "denominator", "__name__", "__class__", "__mro__", "__bases__", "__qualname__", "__module__") and not isinstance(base, dict):
@@ -352,6 +372,19 @@ class Interp:
             return _guard(isinstance, args[0], typ)
         if self.ctor_prefixes and name.startswith(self.ctor_prefixes):
             return Term(name, args, kwargs)
+        if name in self.externs:
+            return self.externs[name](*args, **kwargs)
+        if isinstance(e.func, ast.Attribute):
+            try:
+                recv = self.ev(e.func.value, env, mod)
+            except Undecided:
+                recv = None
+            if isinstance(recv, Obj):
+                if e.func.attr in recv.methods:
+                    return recv.methods[e.func.attr](*args, **kwargs)
+                raise Raises("AttributeError", f"{recv!r}.{e.func.attr}")
+            if isinstance(recv, (list, set, dict)) and e.func.attr in ("append", "remove", "clear", "extend", "add", "discard", "pop", "insert", "update", "sort", "reverse", "setdefault"):
+                return _guard(getattr(recv, e.func.attr), *args, **kwargs)
         fval = env.get(name)
         if isinstance(fval, Closure):
             return fval.interp.apply(fval, args, kwargs, mod)
@@ -427,6 +460,10 @@ class Interp:
                 raise Raises("ValueError", "unpack")
             for t, v in zip(target.elts, vals):
                 self._bind(t, v, env)
+        elif isinstance(target, ast.Attribute) and isinstance(env.get(norm(target.value)), Obj):
+            env[norm(target.value)].fields[target.attr] = value
+        elif isinstance(target, ast.Subscript) and isinstance(env.get(norm(target.value)), (list, dict)):
+            _guard(env[norm(target.value)].__setitem__, self.ev(target.slice, env), value)
         else:
             env[norm(target)] = value
             if self.on_store is not None:
